@@ -174,6 +174,27 @@ func (a *Alerts) Set(alert *types.Alert) error {
 	return nil
 }
 
+// SetIfNotOlder sets the alert in memory unless the store already holds a
+// version of it that was updated more recently, in which case the stored
+// version is kept. Writers that deliver the updates of one alert out of order
+// therefore converge on the most recent update.
+func (a *Alerts) SetIfNotOlder(alert *types.Alert) error {
+	a.Lock()
+	defer a.Unlock()
+
+	if a.destroyed {
+		return ErrDestroyed
+	}
+
+	fp := alert.Fingerprint()
+	if old, ok := a.alerts[fp]; ok && old.UpdatedAt.After(alert.UpdatedAt) {
+		return nil
+	}
+
+	a.alerts[fp] = alert
+	return nil
+}
+
 // DeleteIfNotModified deletes the slice of Alerts from the store if not
 // modified.
 func (a *Alerts) DeleteIfNotModified(alerts types.AlertSlice, destroyIfEmpty bool) error {
